@@ -133,7 +133,7 @@ def run(chk):
     # 2c. several assets per account + variables with balance()/overdraft()/meta() origins: the per-account asset lists
     # of the balance queries, values cached by an origin before the statements are scanned, bounded overdrafts on
     # negative balances
-    multi_profile = {"multi_asset": True, "origins": 0.7, "neg_balance": 0.3, "overdraft_bounded": 0.4, "stmts_max": 4,
+    multi_profile = {"lookalike_names": 0.35, "multi_asset": True, "origins": 0.7, "neg_balance": 0.3, "overdraft_bounded": 0.4, "stmts_max": 4,
                      "depth": 2, "ddepth": 1, "acct_var": 0.2, "save": 0.1}
     cases_m, gens_m = P.make_cases(pid, seed + 7919, max(300, n // 2), start=7_000_000, profile_override=multi_profile)
     gos_m = runner.run_go(cases_m)
